@@ -37,7 +37,7 @@ def order_for(rel):
 
 def sh(cmd, cwd=None, env=None, timeout=1200):
     try:
-        r = subprocess.run(cmd, cwd=cwd, env=env, capture_output=True, text=True, timeout=timeout)
+        r = subprocess.run(cmd, cwd=cwd, env=env, capture_output=True, text=True, errors='replace', timeout=timeout)
         return r.returncode, r.stdout + r.stderr
     except subprocess.TimeoutExpired:
         return 124, 'timeout'
